@@ -3,7 +3,7 @@ spec/p2p/Framing.tla, Handshake.tla, BlockRecv.tla; binding: every finished run 
 concretised and replayed on the real V030ReadWriter, the real v2.0.0 / v0.3.x handshakers and the real block receive
 paths of package p2p (harness/p2p/v030, harness/p2p/v200, harness/p2p).  The chain-service side of part (c)
 (chain.addBlock) is hooked in through run_chain_identity()."""
-import concurrent.futures, hashlib, json, os, random, shutil, subprocess, time
+import concurrent.futures, hashlib, json, os, random, re, shutil, subprocess, time
 import vlib
 
 LEVEL = "model_checking"
@@ -145,6 +145,70 @@ def framing_families(tier, rng):
     return fams
 
 
+# --------------------------------------------------------------------------- (a') framing, the reader/writer as a stream object
+
+_FS_STR = re.compile(r'\\"([^"\\]*)\\"')
+
+
+def stream_behaviours(out):
+    """Lines printed by MC_FrameStream!GenLog: "FS|<<<<steps>>, <<results>>>>" (strings "W cls sub res" | "R" | "E kind" | "= kind sub cls tag")."""
+    behs = []
+    for line in out.splitlines():
+        if not line.startswith('"FS|'):
+            continue
+        items = _FS_STR.findall(line)
+        behs.append({"steps": [x for x in items if x[0] != "="], "ret": [x for x in items if x[0] == "="]})
+    return behs
+
+
+def stream_scenario(name, res):
+    """Counterexample of the shared-buffer variant of FrameStream.tla -> the calls made (hist) and what every ReadMsg
+    returned when it returned (seen): that is what the design demands the kept messages to show for ever."""
+    st = res.error_trace[-1][1] if res.error_trace else {}
+    hist, seen = st.get("hist"), st.get("seen")
+    if not isinstance(hist, list) or not isinstance(seen, list) or not hist:
+        raise vlib.Infra("cannot read the counterexample of %s\n%s" % (name, res.out[-2000:]))
+    steps = []
+    for a in hist:
+        if a["name"] == "Write":
+            steps.append("W %s %d %s" % (a["cls"], a["sub"], a["res"]))
+        elif a["name"] == "End":
+            steps.append("E " + a["kind"])
+        else:
+            steps.append("R")
+    return {"name": name, "steps": steps, "ret": ["= %s %d %s %d" % (x["k"], x["sub"], x["cls"], x["tag"]) for x in seen]}
+
+
+FS_SMALL = [2, 3, 15, 16, 17, 31, 32, 33, 47, 48, 49, 63, 64, 65, 100, 127, 128, 129, 255, 256, 257, 511, 512, 513, 1000, 1023, 1024, 1025,
+            2047, 2048, 2049, 4000]
+FS_FEDGE = [4047, 4048, 4049]                 # header + payload = size of the bufio buffers +- 1
+FS_PEDGE = [4095, 4096, 4097]                 # payload = size of the bufio buffers +- 1 (first length read / written directly)
+FS_LARGE = [4098, 4144, 5000, 8191, 8192, 8193, 12288, 16383, 16384, 16385]
+FS_SMALL_MAX = 20000                          # MaxPayloadLength configured for the stream replays (above every class but max / over)
+
+
+def stream_families(tier, rng):
+    def fam(scale, small, fedge, pedge, large, hdr_cut, cut, chunker, fill="rand", over_add=1, over_abs=0, rest=100):
+        return dict(scale=scale, lens=dict(small=small, fedge=fedge, pedge=pedge, large=large), hdr_cut=hdr_cut, cut=cut, chunker=chunker,
+                    fill=fill, over_add=over_add, over_abs=over_abs, rest=rest)
+    fams = [
+        fam("small", 47, 4048, 4096, 8192, 4, "zero", "all"),
+        fam("small", 256, 4047, 4095, 4098, 47, "last", "rand", over_add=0, over_abs=(1 << 32) - 1),
+        fam("small", 257, 4049, 4097, 16385, 8, "half", "split", fill="frames"),
+        fam("true", 100, 4048, 4096, 1 << 20, 16, "one", "rand"),
+    ]
+    for _ in range(1 if tier == "quick" else 8):
+        add = rng.choice([0, 1, 2, 4096])
+        fams.append(fam("small", rng.choice(FS_SMALL), rng.choice(FS_FEDGE), rng.choice(FS_PEDGE), rng.choice(FS_LARGE), rng.randrange(1, 48),
+                        rng.choice(["zero", "one", "half", "last"]), rng.choice(["all", "rand", "split", "one"]), rng.choice(["rand", "frames"]),
+                        over_add=add, over_abs=0 if add else rng.choice([1 << 24, 1 << 31, (1 << 32) - 1, MAXP + 1]), rest=rng.choice([0, 1, 100, 5000])))
+    if tier != "quick":
+        fams.append(fam("true", 255, 4049, 4095, 1 << 20, 31, "last", "split"))
+    for i, f in enumerate(fams):
+        f["salt"] = 101 + i
+    return fams
+
+
 # --------------------------------------------------------------------------- (b) handshake
 
 def handshake_cases(trs):
@@ -274,12 +338,15 @@ def run(c):
     parts = set(p for p in os.environ.get("VERIF_C18_PARTS", "a,b,c").split(",") if p in ("a", "b", "c")) or {"a", "b", "c"}
     if parts != {"a", "b", "c"}:
         c.notes.append("PARTIAL RUN: parts %s only (VERIF_C18_PARTS)" % sorted(parts))
-    part_of = {"fr": "a", "hs": "b", "br": "c"}
+    part_of = {"fr": "a", "fs": "a", "hs": "b", "br": "c"}
     # ---- 1. TLC: design checks and generation, concurrently
     W = 3
     jobs = [
         ("fr-mc", "MC_Framing", "MC_Framing.cfg" if quick else "MC_Framing_big.cfg", W, 1500),
         ("fr-gen", "MC_Framing", "Gen_Framing.cfg" if quick else "Gen_Framing_big.cfg", 1, 1500),
+        ("fs-mc", "MC_FrameStream", "MC_FrameStream.cfg" if quick else "MC_FrameStream_big.cfg", W, 1500),
+        ("fs-gen", "MC_FrameStream", "Gen_FrameStream.cfg", 1, 1500),
+        ("fs-sh", "MC_FrameStream", "MC_FrameStream_shared.cfg", 1, 600),
         ("hs-mc", "MC_Handshake", "MC_Handshake.cfg" if quick else "MC_Handshake_big.cfg", 2, 900),
         ("hs-gen", "MC_Handshake", "Gen_Handshake.cfg" if quick else "Gen_Handshake_big.cfg", 1, 900),
         ("br-mc", "MC_BlockRecv", "MC_BlockRecv.cfg" if quick else "MC_BlockRecv_big.cfg", W, 1500),
@@ -289,6 +356,7 @@ def run(c):
     ]
     if not quick:
         jobs.append(("br-mc2", "MC_BlockRecv", "MC_BlockRecv_big2.cfg", W, 1500))
+        jobs.append(("fs-gen2", "MC_FrameStream", "Gen_FrameStream_big.cfg", 1, 1500))
     jobs = [j for j in jobs if part_of[j[0][:2]] in parts]
     # the Go harnesses are compiled while TLC runs
     pkgs = [p for p, need in (("./p2p/v030/", {"a", "b"}), ("./p2p/v200/", {"b"}), ("./p2p/", {"c"})) if need & parts]
@@ -320,6 +388,29 @@ def run(c):
             inp("framing", "./p2p/v030/", "^TestVerifFraming$",
                 {"hdr_len": 2, "max": 3, "cases": fr_cases, "families": fr_fams, "random_streams": 800 if quick else 8000,
                  "small_max": SMALL_MAX, "true_every": 12 if quick else 6})
+            # the reader/writer as a stream object: interleaved writes and reads, the consumer keeps every message
+            c.require_ok(R["fs-mc"], "FrameStream design: ReturnedMessagesImmutable, StreamFidelity, OwnBuffer, CleanFailure, Total, Complete")
+            c.require_ok(R["fs-gen"], "FrameStream: enumeration of finished behaviours (<= 3 writes, 8 size classes)")
+            fs_behs = stream_behaviours(R["fs-gen"].out)
+            if not quick:
+                c.require_ok(R["fs-gen2"], "FrameStream: enumeration of finished behaviours (<= 4 writes, 6 size classes)")
+                fs_behs += stream_behaviours(R["fs-gen2"].out)
+            if len(fs_behs) < 10000:
+                raise vlib.Infra("too few generated stream behaviours: %d" % len(fs_behs))
+            r = R["fs-sh"]
+            c.add_tlc(r, "FrameStream with a buffer shared between small messages: expected counterexample to ReturnedMessagesImmutable")
+            if r.violation != "ReturnedMessagesImmutable" or not r.error_trace:
+                raise vlib.Infra("the shared-buffer variant of FrameStream was expected to violate ReturnedMessagesImmutable, TLC says: %s\n%s" % (r.violation, r.out[-2000:]))
+            fs_scen = [stream_scenario("shared-buffer-counterexample", r)]
+            c.notes.append("shared-buffer variant of FrameStream.tla: TLC's counterexample %s replayed on the real reader (must not reproduce)" % fs_scen[0]["steps"])
+            fs_fams = stream_families(c.tier, rng)
+            # at the node's real MaxPayloadLength: a seeded sample of the behaviours that carry two or more big frames
+            big = [i for i, b in enumerate(fs_behs) if sum(1 for x in b["steps"] if x.startswith(("W max", "W large"))) >= 2]
+            true_idx = sorted(rng.sample(big, min(len(big), 40 if quick else 600)))
+            sizes["a2"] = "framing as a stream %d finished behaviours (every interleaving of <= %d WriteMsg calls over the size classes with the ReadMsg calls, 4 endings) x %d families" % (
+                len(fs_behs), 3 if quick else 4, len(fs_fams))
+            inp("stream", "./p2p/v030/", "^TestVerifFrameStream$",
+                {"behaviours": fs_behs, "scenarios": fs_scen, "families": fs_fams, "small_max": FS_SMALL_MAX, "true_idx": true_idx})
         if "b" in parts:
             c.require_ok(R["hs-mc"], "Handshake design: SameChainOnly, Decision, TwinAccepted, Total, InboundSendsAfterAccept")
             c.require_ok(R["hs-gen"], "Handshake: enumeration of finished runs")
